@@ -19,7 +19,7 @@ def run(ctx):
     if ctx.replay:
         case = json.load(open(ctx.replay))["case"]
         vec = ctx.path("vec.ndjson")
-        lib.write_ndjson(vec, [{"e": case["e"], "f": case["f"], "tagged": case["tagged"]}])
+        lib.write_ndjson(vec, [{"e": case["e"], "f": case["f"], "g": case.get("g") or {"op": "lit", "s": [1], "a": 0, "b": 0}, "nested": case.get("nested", False), "tagged": case["tagged"]}])
         mc = None
     else:
         mc = lib.tlc("automata/AutomataMC", f"AutomataMC.{tier}.cfg", workers=8 if q else 16, check=False, timeout=3400, heap="8g")
@@ -39,8 +39,8 @@ def run(ctx):
     for v in verdicts:
         r = by[v["id"]]
         at = r["res"][v["at"] - 1] if v["at"] else None
-        ctx.fail({"why": v["why"]}, f"expression {show(r['e'])}{' | ' + show(r['f']) if r['tagged'] else ''} map={r['map']} at {at}: {v['why']}",
-                 {"e": r["e"], "f": r["f"], "tagged": r["tagged"]})
+        ctx.fail({"why": v["why"]}, f"expression {'(' if r.get('nested') else ''}{show(r['e'])}{' | ' + show(r['f']) if r['tagged'] else ''}{') ' + show(r['g']) if r.get('nested') else ''} route={r.get('route')} map={r['map']} at {at}: {v['why']}",
+                 {"e": r["e"], "f": r["f"], "g": r.get("g"), "nested": r.get("nested", False), "tagged": r["tagged"]})
     cov = {
         "states": mc.distinct if mc else 1, "transitions": mc.generated if mc else 1,
         "traces_validated_against_impl": len(recs),
